@@ -378,6 +378,67 @@ func runC20(c *fw.Ctx) {
 		}
 		guard(c, func() string { return doc.Text }, func() { c20CheckVia(c, doc, root, via, dir) })
 	})
+	// any rejection at all: token soups and damaged valid documents with line breaks sprinkled in; whatever error kind the
+	// parser reports, if it cites a line, the kind-independent oracle says which line that has to be
+	c.Cases("any-error", c.N(6000, 3000000), false, func(i int, r *rng.R) {
+		var text string
+		if r.Bool() {
+			text = genSoup(r)
+		} else {
+			root := spec.List
+			if r.Bool() {
+				root = spec.Obj
+			}
+			b := []byte(renderRoot(r, genDocTree(r, root, r.Range(1, 3), r.Range(1, 4)), randStyle(r), false))
+			for k := r.Range(1, 3); k > 0 && len(b) > 2; k-- {
+				pos := 1 + r.Intn(len(b)-1)
+				switch r.Intn(4) {
+				case 0:
+					b = append(b[:pos], b[pos+1:]...) // drop a byte
+				case 1:
+					b[pos] = "@x:,]}[{\"\\ \n"[r.Intn(12)] // overwrite a byte
+				case 2:
+					b = append(b[:pos], append([]byte{"@x:,]}[{\"\\ \n"[r.Intn(12)]}, b[pos:]...)...) // insert a byte
+				default:
+					b = append(b[:pos], append([]byte("\n"), b[pos:]...)...)
+				}
+			}
+			text = string(b)
+		}
+		// line breaks at random places (also inside literals: the lenient parser takes many of them)
+		bb := []byte(text)
+		for k := r.Intn(5); k > 0 && len(bb) > 0; k-- {
+			pos := r.Intn(len(bb) + 1)
+			bb = append(bb[:pos], append([]byte([]string{"\n", "\r\n", "\n\n", " \n"}[r.Intn(4)]), bb[pos:]...)...)
+		}
+		text = string(bb)
+		c.MarkInput(text)
+		for _, root := range []spec.Kind{spec.List, spec.Obj} {
+			var err error
+			pan, msg := drive.Protect(func() {
+				if root == spec.List {
+					_, err = at.ParseList(text)
+				} else {
+					_, err = at.ParseObject(text)
+				}
+			})
+			in := func() string { return fmt.Sprintf("input %q given to the %v parser", text, root) }
+			if pan {
+				c.Violate("parse-panics", in(), "error or container", "panic: "+msg)
+				return
+			}
+			if err == nil || lineRe.FindStringSubmatch(err.Error()) == nil {
+				c.Count("any_error_no_line_cited")
+				continue
+			}
+			c.Count("any_error_line_citing")
+			c.SetAdd("error_kinds_seen", lineRe.ReplaceAllString(regexp.MustCompile(`'[^']*'`).ReplaceAllString(err.Error(), "'…'"), "on line N"))
+			c.Distinct(text)
+			if !c20PrefixOracle(c, text, root, err.Error(), in) {
+				return
+			}
+		}
+	})
 }
 
 func c20Check(c *fw.Ctx, doc *errDoc, root spec.Kind, via int) { c20CheckVia(c, doc, root, via, "") }
@@ -426,6 +487,11 @@ func c20CheckVia(c *fw.Ctx, doc *errDoc, root spec.Kind, via int, dir string) {
 		c.Count("vacuous_no_line_in_message")
 		return
 	}
+	// kind-independent oracle: the parser reads from left to right, so the character at which an error was detected is
+	// the last character of the shortest prefix of the input that is rejected with the very same message
+	if !c20PrefixOracle(c, doc.Text, root, err.Error(), in) {
+		return
+	}
 	if !strings.Contains(err.Error(), "'"+doc.Token+"'") {
 		c.Count("vacuous_other_token")
 		return
@@ -445,6 +511,61 @@ func c20CheckVia(c *fw.Ctx, doc *errDoc, root spec.Kind, via int, dir string) {
 		sig := "wrong-line-" + doc.Kind
 		c.Violate(sig, in(), "the cited line is the line of the detection character", err.Error())
 	}
+}
+
+// c20PrefixOracle locates the detection character of a line-citing error without knowing its kind (binary search for the
+// shortest prefix that gives the same message; every longer prefix gives it too, because the parser stops there) and
+// compares the cited line with that character's line. Returns false after reporting a violation.
+func c20PrefixOracle(c *fw.Ctx, text string, root spec.Kind, message string, in func() string) bool {
+	parse := func(t string) string {
+		var err error
+		drive.Protect(func() {
+			if root == spec.List {
+				_, err = at.ParseList(t)
+			} else {
+				_, err = at.ParseObject(t)
+			}
+		})
+		if err == nil {
+			return ""
+		}
+		return err.Error()
+	}
+	if parse(text) != message {
+		c.Count("prefix_oracle_not_applicable") // e.g. the message came from ParseFile with another wording
+		return true
+	}
+	lo, hi := 0, len(text) // invariant: parse(text[:hi]) == message; the answer is in (lo, hi]
+	for hi-lo > 1 {
+		mid := (lo + hi) / 2
+		if parse(text[:mid]) == message {
+			hi = mid
+		} else {
+			lo = mid
+		}
+	}
+	// monotonicity is what the search relies on: confirm it at the boundary
+	if hi == 0 || parse(text[:hi-1]) == message {
+		c.Count("prefix_oracle_not_applicable")
+		return true
+	}
+	// the detection character ends at byte hi-1 (it may be a character of several bytes: its line is that of its bytes)
+	want := 1 + strings.Count(text[:hi-1], "\n")
+	c.Count("prefix_oracle_judgements")
+	m := lineRe.FindStringSubmatch(message)
+	n, _ := strconv.Atoi(m[1])
+	if n != want {
+		c.Violate("wrong-line-of-detection-character", in()+fmt.Sprintf("\nshortest prefix with this message ends at byte %d (%q)", hi-1, text[maxInt(0, hi-12):hi]), fmt.Sprintf("line %d (one plus the line breaks before the character at which the error was detected)", want), message)
+		return false
+	}
+	return true
+}
+
+func maxInt(a, b int) int {
+	if a > b {
+		return a
+	}
+	return b
 }
 
 func selfC20(s *fw.SelfCheck) {
